@@ -960,6 +960,10 @@ def run(tier):
         k7_regions(prog, rep)
         k8_bitcount(prog, rep)
         k10_encap(prog, rep)
+        # copies, fills and wipes of the hash units' stack scratch stay inside the object they are given (C15's bounded-copy rule;
+        # a wipe one byte longer than its buffer overwrites the neighbouring scratch or the frame)
+        from . import c15 as _c15
+        _c15.j3(prog, rep, units=("alg/sha256.c", "alg/sha1.c", "alg/md5.c"))
         if k11_vect(prog, rep) < 6:
             rep.defer_broken("K11: fewer than 6 word-vector helpers found in the hash units")
         ctx_typestate(prog, rep, ["alg/sha256.c", "alg/sha1.c", "alg/md5.c"])
